@@ -152,6 +152,14 @@ def run(e: Engine, rep: Report):
              'they raise or return is what Client.mailfrom / rcptto '
              'returned')
     x17_x18(e, rep)
+    rep.rule('X19', 'how much DATA the server takes is what it advertised: '
+             'the limit Server hands to DataReader is the parameter of its '
+             'SIZE extension (or None) and nothing computed from what the '
+             'client said - the reader counts octets on the wire (stuffed '
+             'dots, end marker), a size declared with MAIL counts the '
+             'message: holding the client to a sum of the two refuses '
+             'messages that are within the advertised limit')
+    x19(e, rep)
     rep.floor('X1', 4, 'command framing obligations')
     rep.floor('X4', 6, 'HTTP agreement obligations')
 
@@ -1726,3 +1734,101 @@ def x17_x18(e: Engine, rep: Report):
                       reason='only Client.%s() replies' % meth.lstrip('_'))
     if m < 2:
         rep.error('anchor vanished: _mailfrom / _rcptto of the relay client')
+
+
+# ---------------------------------------------------------------------- X19
+def x19(e: Engine, rep: Report):
+    srv = common.merged_class(e, SERVER)
+    n = 0
+
+    def pure(x, fn, depth=0):
+        """None: the advertised SIZE parameter / None on every path;
+        otherwise the offending expression"""
+        if depth > 6:
+            return x
+        if isinstance(x, ast.Constant) and x.value is None:
+            return None
+        if isinstance(x, ast.Call) and isinstance(x.func, ast.Attribute) \
+                and x.func.attr == 'getparam' and x.args and \
+                isinstance(x.args[0], ast.Constant) and \
+                str(x.args[0].value).upper() == 'SIZE':
+            return None
+        if isinstance(x, ast.Attribute) and isinstance(x.value, ast.Name) \
+                and x.value.id == 'self':
+            # an attribute: every assignment of it in the class
+            ds = [a.value for m in srv.methods.values()
+                  for a in walk_own(m.node) if isinstance(a, ast.Assign)
+                  and any(ast.unparse(t) == ast.unparse(x)
+                          for t in a.targets)]
+            if not ds:
+                return x
+            for m in srv.methods.values():
+                for a in walk_own(m.node):
+                    if isinstance(a, ast.Assign) and any(
+                            ast.unparse(t) == ast.unparse(x)
+                            for t in a.targets):
+                        r = pure(a.value, m.node, depth + 1)
+                        if r is not None:
+                            return r
+            return None
+        if isinstance(x, ast.Name):
+            ds = [a for a in walk_own(fn) if isinstance(a, ast.Assign) and
+                  any(isinstance(t, ast.Name) and t.id == x.id
+                      for t in a.targets)]
+            if not ds or any(isinstance(a, ast.AugAssign) and
+                             isinstance(a.target, ast.Name) and
+                             a.target.id == x.id for a in walk_own(fn)):
+                return x
+            for a in ds:
+                r = pure(a.value, fn, depth + 1)
+                if r is not None:
+                    return r
+            return None
+        if isinstance(x, ast.IfExp):
+            return pure(x.body, fn, depth + 1) or \
+                pure(x.orelse, fn, depth + 1)
+        if isinstance(x, ast.BoolOp):
+            for v in x.values:
+                r = pure(v, fn, depth + 1)
+                if r is not None:
+                    return r
+            return None
+        if isinstance(x, ast.Call) and isinstance(x.func, ast.Attribute) \
+                and isinstance(x.func.value, ast.Name) and \
+                x.func.value.id == 'self' and x.func.attr in srv.methods:
+            m = srv.methods[x.func.attr]
+            for r0 in walk_own(m.node):
+                if isinstance(r0, ast.Return) and r0.value is not None:
+                    r = pure(r0.value, m.node, depth + 1)
+                    if r is not None:
+                        return r
+            return None
+        return x
+    for mname, m in sorted(srv.methods.items()):
+        for c in walk_own(m.node):
+            if not (isinstance(c, ast.Call) and
+                    ast.unparse(c.func).rpartition('.')[2] == 'DataReader'):
+                continue
+            lim = c.args[1] if len(c.args) > 1 else next(
+                (k.value for k in c.keywords if k.arg == 'max_size'), None)
+            n += 1
+            rep.evaluations += 1
+            rep.functions.add(m.qname)
+            bad = pure(lim, m.node) if lim is not None else None
+            rep.check(bad is None, 'X19', m.qname,
+                      'the DATA limit `%s` is the advertised one'
+                      % (' '.join(ast.unparse(lim).split())[:40]
+                         if lim is not None else 'None'),
+                      'the limit the reader is given can be `%s`, which is '
+                      'not the parameter of the SIZE extension: the reader '
+                      'measures what is on the wire (every stuffed dot, the '
+                      'end marker), so a limit made from a size the client '
+                      'declared for the message itself refuses with 552 a '
+                      'message that is within what the server advertised - '
+                      'the relay reports a failure for mail the edge would '
+                      'have taken' % (' '.join(ast.unparse(bad).split())[:50]
+                                      if bad is not None else ''),
+                      loc=m.loc(c), reason='getparam(\'SIZE\') / None on '
+                      'every path')
+    if n < 1:
+        rep.error('anchor vanished: DataReader(...) in Server')
